@@ -1238,6 +1238,10 @@ func (c *Corpus) PermanodeModtime(pn blob.Ref) (t time.Time, ok bool) {
 	// itself. Even though the permanode blob sometimes has the
 	// GPG signature time, we intentionally ignore it.
 	for _, cl := range pm.Claims {
+		if cl.Type == string(schema.DeleteClaim) {
+			// doc/schema/delete.md: the claimDate of a delete claim is never a modtime.
+			continue
+		}
 		if c.IsDeleted(cl.BlobRef) {
 			continue
 		}
